@@ -72,10 +72,34 @@ class Editor:
         self.db = db
         self.n = 0
         self.stale = []     # old unique tokens that must not show up any more
+        self.lost = []      # assignments that did not take effect
 
     def tok(self, p='zz'):
         self.n += 1
         return f'{p}E{self.n}q'
+
+    def set(self, obj, attr, val):
+        """assignment through the public attribute + read-back: what was assigned is the final content"""
+        setattr(obj, attr, val)
+        got = getattr(obj, attr)
+        if not (got is val or (type(got) is type(val) and got == val)):
+            self.lost.append(f'{type(obj).__name__}.{attr} = {val!r} reads back as {got!r}')
+
+    def twin_default(self, c):
+        """assign a default that compares == to the current one but is a different value for rendering"""
+        pairs = [(True, 1), (1, True), (False, 0), (0, False), (1.0, 1), (2, 2.0), (2.0, 2), (5, 5.0), (0.0, 0)]
+        d = c.default
+        for k, v in pairs:
+            if type(k) is type(d) and k == d:
+                self.set(c, 'default', v)
+                return
+        self.set(c, 'default', self.rng.choice([1, True, 0, False, 2]))
+
+    def note_same_text_then_edit(self, c):
+        from pydbml.classes import Note
+        n = Note(c.note.text)
+        self.set(c, 'note', n)          # same text, new object
+        n.text = self.tok('edited note ')
 
     def edits(self):
         from pydbml.classes import Column, Index, EnumItem, Note, Expression, Enum
@@ -98,12 +122,12 @@ class Editor:
             t = rng.choice(T)
             out += [('rename-table', rename(t, 'name')), ('rename-schema', rename(t, 'schema')),
                     ('rename-alias', rename(t, 'alias')),
-                    ('schema-public', lambda: setattr(t, 'schema', 'public')),
-                    ('alias-none', lambda: setattr(t, 'alias', None)),
-                    ('table-note-replace', lambda: setattr(t, 'note', Note(self.tok('note ')))),
-                    ('table-note-inplace', lambda: setattr(t.note, 'text', self.tok('note '))),
-                    ('table-color', lambda: setattr(t, 'header_color', rng.choice([None, '#abc', '#112233']))),
-                    ('table-comment', lambda: setattr(t, 'comment', rng.choice([None, self.tok('cm ')]))),
+                    ('schema-public', lambda: self.set(t, 'schema', 'public')),
+                    ('alias-none', lambda: self.set(t, 'alias', None)),
+                    ('table-note-replace', lambda: self.set(t, 'note', Note(self.tok('note ')))),
+                    ('table-note-inplace', lambda: self.set(t.note, 'text', self.tok('note '))),
+                    ('table-color', lambda: self.set(t, 'header_color', rng.choice([None, '#abc', '#112233']))),
+                    ('table-comment', lambda: self.set(t, 'comment', rng.choice([None, self.tok('cm ')]))),
                     ('add-column', lambda: t.add_column(Column(self.tok('nc'), rng.choice(['int', 'text']), pk=rng.random() < 0.2,
                                                               default=rng.choice([None, 0, 5, 'x', False])))),
                     ('add-index', lambda: t.add_index(Index(rng.sample(t.columns, rng.randint(1, min(2, len(t.columns)))),
@@ -113,45 +137,47 @@ class Editor:
             if t.indexes:
                 out.append(('remove-index', lambda: t.delete_index(rng.randrange(len(t.indexes)))))
                 ix = rng.choice(t.indexes)
-                out += [('index-name', lambda: setattr(ix, 'name', rng.choice([None, self.tok('ixn')]))),
-                        ('index-flags', lambda: (setattr(ix, 'unique', not ix.unique), setattr(ix, 'type', rng.choice([None, 'gin', 'brin'])))),
-                        ('index-note', lambda: setattr(ix, 'note', Note(self.tok('inote '))))]
+                out += [('index-name', lambda: self.set(ix, 'name', rng.choice([None, self.tok('ixn')]))),
+                        ('index-flags', lambda: (self.set(ix, 'unique', not ix.unique), self.set(ix, 'type', rng.choice([None, 'gin', 'brin'])))),
+                        ('index-note', lambda: self.set(ix, 'note', Note(self.tok('inote '))))]
         if cols:
             c = rng.choice(cols)
             out += [('rename-column', rename(c, 'name')),
-                    ('column-type-str', lambda: setattr(c, 'type', rng.choice(['bigint', 'varchar(10)', 'text[]', self.tok('ty')]))),
-                    ('column-flag', lambda: setattr(c, rng.choice(['pk', 'unique', 'not_null', 'autoinc']), rng.random() < 0.5)),
-                    ('column-default', lambda: setattr(c, 'default', rng.choice(
+                    ('column-type-str', lambda: self.set(c, 'type', rng.choice(['bigint', 'varchar(10)', 'text[]', self.tok('ty')]))),
+                    ('column-flag', lambda: self.set(c, rng.choice(['pk', 'unique', 'not_null', 'autoinc']), rng.random() < 0.5)),
+                    ('column-default', lambda: self.set(c, 'default', rng.choice(
                         [None, 0, 1, 2.5, True, False, '', self.tok('dv'), Expression('now()'), 'NULL']))),
-                    ('column-note-replace', lambda: setattr(c, 'note', Note(self.tok('cnote ')))),
-                    ('column-note-inplace', lambda: setattr(c.note, 'text', self.tok('cnote '))),
-                    ('column-comment', lambda: setattr(c, 'comment', rng.choice([None, self.tok('cc ')])))]
+                    ('column-default-equal-twin', lambda: self.twin_default(c)),
+                    ('column-note-same-text-then-edit', lambda: self.note_same_text_then_edit(c)),
+                    ('column-note-replace', lambda: self.set(c, 'note', Note(self.tok('cnote ')))),
+                    ('column-note-inplace', lambda: self.set(c.note, 'text', self.tok('cnote '))),
+                    ('column-comment', lambda: self.set(c, 'comment', rng.choice([None, self.tok('cc ')])))]
             if E:
-                out.append(('column-type-enum', lambda: setattr(c, 'type', rng.choice(E))))
+                out.append(('column-type-enum', lambda: self.set(c, 'type', rng.choice(E))))
         if E:
             e = rng.choice(E)
             out += [('rename-enum', rename(e, 'name')), ('rename-enum-schema', rename(e, 'schema')),
                     ('add-enum-item', lambda: e.add_item(rng.choice([self.tok('it'), EnumItem(self.tok('it'), note=self.tok('n '))]))),
                     ('rename-enum-item', rename(rng.choice(e.items), 'name')),
-                    ('enum-item-note', lambda: setattr(rng.choice(e.items), 'note', Note(self.tok('einote '))))]
+                    ('enum-item-note', lambda: self.set(rng.choice(e.items), 'note', Note(self.tok('einote '))))]
         if R:
             r_ = rng.choice(R)
-            out += [('ref-kind', lambda: setattr(r_, 'type', rng.choice(['>', '<', '-', '<>']))),
-                    ('ref-inline', lambda: setattr(r_, 'inline', not r_.inline)),
-                    ('ref-name', lambda: setattr(r_, 'name', rng.choice([None, self.tok('rn')]))),
-                    ('ref-actions', lambda: (setattr(r_, 'on_update', rng.choice([None, 'cascade', 'set null'])),
-                                             setattr(r_, 'on_delete', rng.choice([None, 'restrict', 'no action'])))),
-                    ('ref-comment', lambda: setattr(r_, 'comment', rng.choice([None, self.tok('rc ')])))]
+            out += [('ref-kind', lambda: self.set(r_, 'type', rng.choice(['>', '<', '-', '<>']))),
+                    ('ref-inline', lambda: setattr(r_, 'inline', not r_.inline)),     # no read-back: <> never reads back as inline
+                    ('ref-name', lambda: self.set(r_, 'name', rng.choice([None, self.tok('rn')]))),
+                    ('ref-actions', lambda: (self.set(r_, 'on_update', rng.choice([None, 'cascade', 'set null'])),
+                                             self.set(r_, 'on_delete', rng.choice([None, 'restrict', 'no action'])))),
+                    ('ref-comment', lambda: self.set(r_, 'comment', rng.choice([None, self.tok('rc ')])))]
         if db.table_groups:
             g = rng.choice(db.table_groups)
-            out += [('rename-group', rename(g, 'name')), ('group-color', lambda: setattr(g, 'color', rng.choice([None, '#fff'])))]
+            out += [('rename-group', rename(g, 'name')), ('group-color', lambda: self.set(g, 'color', rng.choice([None, '#fff'])))]
         if db.project is not None:
             p = db.project
             out += [('rename-project', rename(p, 'name')),
                     ('project-item', lambda: p.items.__setitem__(self.tok('k'), self.tok('v ')))]
         if db.sticky_notes:
             s = rng.choice(db.sticky_notes)
-            out += [('sticky-text', lambda: setattr(s, 'text', self.tok('st '))), ('rename-sticky', rename(s, 'name'))]
+            out += [('sticky-text', lambda: self.set(s, 'text', self.tok('st '))), ('rename-sticky', rename(s, 'name'))]
         return out
 
 
@@ -180,6 +206,9 @@ def run_history(sh, db, origin, rng, tracer, suite='random', maxlen=12):
             continue
         tracer.phase = 'render'
         steps.append(kind)
+        for msg in ed.lost:
+            sh.violation('stale', f'assignment-lost:after-{kind}', f'after {steps}: {msg}', {'kind': 'edits', 'start': start, 'steps': steps[:]}, {'edit': kind})
+        ed.lost.clear()
         sh.count('obs.edit.' + kind)
         live = renderings(db)
         tracer.phase = 'clone'
@@ -249,7 +278,7 @@ def run_shard(spec, tier, seed, budget_s):
     return sh
 
 
-NEED_EDITS = ['rename-table', 'rename-schema', 'rename-alias', 'rename-column', 'rename-enum', 'column-type-str', 'column-type-enum',
+NEED_EDITS = ['column-default-equal-twin', 'column-note-same-text-then-edit', 'rename-table', 'rename-schema', 'rename-alias', 'rename-column', 'rename-enum', 'column-type-str', 'column-type-enum',
               'column-flag', 'column-default', 'column-note-replace', 'column-note-inplace', 'table-note-replace', 'ref-kind',
               'ref-inline', 'ref-name', 'ref-actions', 'add-column', 'add-index', 'add-enum-item', 'remove-index', 'rename-group']
 
